@@ -278,6 +278,28 @@ func main() {
 			run.Distinct("duplicate-context nats")
 		}
 	}
+	// an FContext reused for the next call while the reader is still busy
+	// with a surplus duplicate of the previous call's response
+	for _, legName := range []string{"adapter", "nats"} {
+		for k := 0; k < 3; k++ {
+			var leg rig.MuxLeg
+			if legName == "adapter" {
+				leg = rig.NewAdapterLeg()
+			} else {
+				leg = rig.NewNatsLeg(nats)
+			}
+			bad, inc, wit := rig.ContextReuseTrial(leg)
+			run.Eval(1)
+			if bad != "" {
+				run.Violation("C06:context-reuse-after-duplicates:"+legName+":response-dropped", bad, wit)
+				break
+			} else if inc != "" {
+				run.Inconclusive("context-reuse trial: " + inc)
+			} else {
+				run.Distinct("context-reuse " + legName)
+			}
+		}
+	}
 	os.Exit(run.Finish())
 }
 
@@ -295,11 +317,15 @@ func fragments(run *ev.Run, established *int32) {
 		blocked bool
 		reopen  bool
 		poke    bool
+		busy    bool
 	}
 	var par, ser []spec
 	for i := 0; i < trials; i++ {
 		ns := []int{1, 2, 3, 4, 8, 16, 40, 64}
-		sp := spec{ns[rng.Intn(len(ns))], rng.Int63(), i%3 == 0, i%4 == 1, i%5 == 2}
+		sp := spec{ns[rng.Intn(len(ns))], rng.Int63(), i%3 == 0, i%4 == 1, i%5 == 2, false}
+		if i%8 == 7 {
+			sp = spec{n: sp.n, seed: sp.seed, busy: true}
+		}
 		if sp.blocked || sp.poke {
 			ser = append(ser, sp)
 		} else {
@@ -307,13 +333,18 @@ func fragments(run *ev.Run, established *int32) {
 		}
 	}
 	var mu sync.Mutex
-	chunks, splits, bytes, blockedN, reopenN, pokeN := 0, 0, 0, 0, 0, 0
+	chunks, splits, bytes, blockedN, reopenN, pokeN, busyN := 0, 0, 0, 0, 0, 0, 0
 	var fragEstablished int32
 	one := func(sp spec) {
 		if atomic.LoadInt32(&fragEstablished) >= 3 {
 			return // each established stall costs seconds; three witnesses are enough
 		}
-		r := rig.FragmentTrial(sp.n, sp.seed, sp.blocked, sp.reopen, sp.poke)
+		var r *rig.FragResult
+		if sp.busy {
+			r = rig.FragmentTrialBusyReopen(sp.n, sp.seed)
+		} else {
+			r = rig.FragmentTrial(sp.n, sp.seed, sp.blocked, sp.reopen, sp.poke)
+		}
 		run.Eval(1)
 		mu.Lock()
 		chunks += r.Chunks
@@ -324,6 +355,9 @@ func fragments(run *ev.Run, established *int32) {
 		}
 		if sp.reopen {
 			reopenN++
+		}
+		if sp.busy {
+			busyN++
 		}
 		if sp.poke {
 			pokeN++
@@ -362,6 +396,7 @@ func fragments(run *ev.Run, established *int32) {
 	run.Set("fragment_trials", trials)
 	run.Set("fragment_trials_with_a_request_blocked_in_Write", blockedN)
 	run.Set("fragment_trials_on_a_transport_reopened_after_a_session_that_ended_inside_a_frame", reopenN)
+	run.Set("fragment_trials_on_a_transport_closed_and_reopened_while_the_earlier_read_loop_was_delivering_a_frame", busyN)
 	run.Set("fragment_trials_with_Open_called_on_the_open_transport_while_requests_are_in_flight", pokeN)
 	run.Set("fragment_pieces_fed", chunks)
 	run.Set("fragment_size_prefixes_split_across_reads", splits)
